@@ -653,7 +653,10 @@ def c12 : List String → String
 def c16 : List String → String
   | ["run", ops] =>
     let srvOf := fun (x : String) => if x == "ok" then Lk.Srv.ok else Lk.Srv.refuse
-    let ops? : Option (List Lk.Op) := (ops.splitOn ";").mapM fun o =>
+    -- an op written with a leading `q` is a step INSIDE one command (git lfs lock a b c): no observation after it
+    let quiet := (ops.splitOn ";").map fun o => o.startsWith "q"
+    let ops? : Option (List Lk.Op) := (ops.splitOn ";").mapM fun o0 =>
+      let o := if o0.startsWith "q" then (o0.drop 1).toString else o0
       match o.splitOn ":" with
       | ["L", p, sv] => p.toNat?.map fun p => Lk.Op.lock p (srvOf sv)
       | ["U", p, f, m, sv] => p.toNat?.map fun p => Lk.Op.unlockPath p (f == "1") (m == "1") (srvOf sv)
@@ -671,7 +674,8 @@ def c16 : List String → String
        let rec go (s : Lk.St) : List Lk.Op → List String
          | [] => []
          | o :: os => let s' := Lk.step s o; showSt s' :: go s' os
-       String.intercalate ";" (go { table := [], cache := [], nextId := 1 } ops))
+       let outs := go { table := [], cache := [], nextId := 1 } ops
+       String.intercalate ";" ((outs.zip quiet).filterMap fun (o, q) => if q then none else some o))
   | ["push", v, table, touched] =>
     (match natList touched with
      | none => "bad-op"
